@@ -312,6 +312,41 @@ theorem C16_length_wraps (p : Bytes) (h : p.length = 2 ^ 32) : lengthWord p = 10
   rw [h]
   decide
 
+/-! ### The password decision is byte equality — for all byte strings -/
+
+/-- the test `P != password` of `AcceptLogin`, as the model has it, is (in)equality of the two byte strings: no
+length bound, no prefix rule, nothing modulo anything -/
+theorem C16_password_decision (got want : Bytes) : (got != want) = false ↔ got = want := by
+  simp
+
+/-- A password that extends the right one (or is extended by it) by ANY non-empty byte string — 1, 255, 256, 257,
+512, 768, 1024 … bytes, whatever their values — is refused on both sides, for every non-negative request id.
+(`C16_login_iff` already says "iff equal"; this is its instance for common-prefix pairs.) -/
+theorem C16_login_extension_refused (r : BitVec 32) (hr : 0 ≤ r.toInt) (pw x : Bytes) (hx : x ≠ [])
+    (h1 : (pw ++ x).length + 10 < 2 ^ 31) :
+    ((loginRun r (pw ++ x) pw).1 = Res.err ∧ (loginRun r (pw ++ x) pw).2.1 = Res.err) ∧
+    ((loginRun r pw (pw ++ x)).1 = Res.err ∧ (loginRun r pw (pw ++ x)).2.1 = Res.err) := by
+  have hne : pw ++ x ≠ pw := by
+    intro h
+    have := congrArg List.length h
+    simp at this
+    exact hx this
+  have h2 : pw.length + 10 < 2 ^ 31 := by simp at h1; omega
+  exact ⟨(C16_login_iff r hr (pw ++ x) pw h1).2.2 (fun h => hne h.1),
+         (C16_login_iff r hr pw (pw ++ x) h2).2.2 (fun h => hne h.1.symm)⟩
+
+
+/-- decided instances at the length difference 256: "hunter2" + 256 bytes against "hunter2", and any 256-byte
+password against the empty one, are refused by the server and the client gets an error -/
+theorem C16_login_256_extension_witness :
+    (loginRun 5#32 ([0x68#8, 0x75#8, 0x6e#8, 0x74#8, 0x65#8, 0x72#8, 0x32#8] ++ List.replicate 256 0x41#8)
+      [0x68#8, 0x75#8, 0x6e#8, 0x74#8, 0x65#8, 0x72#8, 0x32#8]).2.1 = Res.err ∧
+    (loginRun 5#32 ([0x68#8, 0x75#8, 0x6e#8, 0x74#8, 0x65#8, 0x72#8, 0x32#8] ++ List.replicate 256 0x41#8)
+      [0x68#8, 0x75#8, 0x6e#8, 0x74#8, 0x65#8, 0x72#8, 0x32#8]).1 = Res.err ∧
+    (loginRun 5#32 (List.replicate 256 0x00#8) []).2.1 = Res.err ∧
+    (loginRun 5#32 [] (List.replicate 256 0x00#8)).2.1 = Res.err := by
+  decide +kernel
+
 /-! ### Session -/
 
 /-- After a successful login, for every sequence of exchanges — each optionally under a fresh request id chosen
